@@ -869,7 +869,7 @@ Lemma declined_is_none_or_fail T v :
   (try_convert T v = Fail "internal" /\ exists id tbl id', v = DJ id tbl /\ T = FJson id').
 Proof.
   unfold try_convert.
-  destruct T as [t|id elem|id|id|id kd]; destruct v as [|vt sv|vid tbl|s|vid vkd conv]; cbn [dval_ty fty_id];
+  destruct T as [t|id elem|id|id|id kd [[eid ekd]|]]; destruct v as [|vt sv|vid tbl|s|vid vkd conv]; cbn [dval_ty fty_id];
     try (left; eexists; reflexivity); try (right; left; reflexivity).
   all: match goal with |- context [if ?c then _ else _] => destruct c end;
     try (left; eexists; reflexivity); try (right; left; reflexivity).
